@@ -9,7 +9,25 @@ fn poly(b: &Universal2DBox) -> Vec<geom::P> {
     geom::rect(b.xc as f64, b.yc as f64, b.angle.unwrap_or(0.0) as f64, b.height as f64 * b.aspect as f64, b.height as f64)
 }
 
+/// integer-grid axis-aligned boxes whose mutual coverage fractions are exact binary fractions, with the threshold set to
+/// exactly such a fraction: "more than the threshold" is then decidable at equality
+fn gen_exact_list(rng: &mut Rng) -> (Vec<(Universal2DBox, Option<f32>)>, f32, Option<f32>, &'static str) {
+    let n = 2 + rng.usize(5);
+    let mut v = vec![];
+    for i in 0..n {
+        // 8x8 boxes shifted by multiples of 2: coverage fractions k/4 * m/4 ...; heights differ slightly in rank only via score
+        let (l, t) = (2.0 * rng.range(0, 6) as f32, 2.0 * rng.range(0, 6) as f32);
+        let b = similari::utils::bbox::BoundingBox::new(l, t, 8.0, 8.0).as_xyaah();
+        v.push((b, Some(1.0 - i as f32 / 16.0)));
+    }
+    let thr = *rng.pick(&[0.25f32, 0.5, 0.75, 0.5625, 0.375]);
+    (v, thr, None, "exact-grid")
+}
+
 fn gen_list(rng: &mut Rng) -> (Vec<(Universal2DBox, Option<f32>)>, f32, Option<f32>, &'static str) {
+    if rng.chance(0.08) {
+        return gen_exact_list(rng);
+    }
     let n = match rng.usize(10) {
         0 => 0,
         1 => 1,
@@ -46,6 +64,18 @@ fn gen_list(rng: &mut Rng) -> (Vec<(Universal2DBox, Option<f32>)>, f32, Option<f
                 b.aspect = if rng.chance(0.5) { 0.0 } else { -b.aspect };
             }
         }
+        // a tenth of the boxes reach their parameters through public field writes AFTER gen_vertices() cached an earlier state
+        if rng.chance(0.1) && b.height > 0.0 && b.aspect > 0.0 {
+            let mut t = Universal2DBox::new(b.xc + 2.0 * b.height, b.yc - b.height, Some(b.angle.unwrap_or(0.0) + 0.9), b.aspect * 1.5, b.height * 0.7);
+            t.gen_vertices();
+            t.xc = b.xc;
+            t.yc = b.yc;
+            t.angle = b.angle;
+            t.aspect = b.aspect;
+            t.height = b.height;
+            t.confidence = b.confidence;
+            b = t;
+        }
         let score = match with_scores {
             0 => None,
             1 => Some(rng.f32()),
@@ -74,7 +104,7 @@ fn gen_list(rng: &mut Rng) -> (Vec<(Universal2DBox, Option<f32>)>, f32, Option<f
 fn main() {
     let cli = Cli::parse();
     let mut rep = Report::new("C14", &cli);
-    rep.note("rule", json!("case = list of 0..40 boxes (clustered / sparse / nested / duplicated / mixed, rotated or not - 35% of the rotated lists co-oriented (one shared non-zero angle) -, scores none / all / mixed, ~4% invalid boxes), nms threshold in (0,1), score threshold None / below / inside / above. Outputs are mapped to input indices by pointer identity. Checked: subset & filter, non-increasing rank, top-ranked eligible kept, no kept box covered beyond threshold (+1e-4 band) by an earlier kept box, every dropped eligible box covered beyond threshold (-1e-4 band) by some kept box of rank >= its own, nms(nms(x)) == nms(x). Coverage reference = f64 convex intersection / area. Non-trivial: at least one box dropped by suppression and at least two kept; distinct by hash of the list."));
+    rep.note("rule", json!("case = list of 0..40 boxes (clustered / sparse / nested / duplicated / mixed, rotated or not - 35% of the rotated lists co-oriented (one shared non-zero angle) -, scores none / all / mixed, ~4% invalid boxes), nms threshold in (0,1), score threshold None / below / inside / above. Outputs are mapped to input indices by pointer identity. Checked: subset & filter, non-increasing rank, top-ranked eligible kept, no kept box covered beyond threshold (+1e-4 band) by an earlier kept box, every dropped eligible box covered beyond threshold (-1e-4 band) by some kept box of rank >= its own, nms(nms(x)) == nms(x). Coverage reference = f64 convex intersection / area; 8% of the lists are integer-grid lists whose coverage fractions and threshold are exact binary fractions, judged without band (a box covered by exactly the threshold fraction is NOT suppressed); 10% of the boxes reach their parameters by field writes after gen_vertices(). Non-trivial: at least one box dropped by suppression and at least two kept; distinct by hash of the list."));
     rep.note("assumptions", json!(["finite scores and coordinates", "rank ties: either order accepted (only non-increasing ranks are required)"]));
     let n = cli.cases(20_000, 1_000_000);
     for idx in cli.index_range(n) {
@@ -146,7 +176,8 @@ fn main() {
             let (a, b) = (polys[hi].as_ref().unwrap(), polys[lo].as_ref().unwrap());
             geom::intersection_area(a, b) / geom::shoelace(b)
         };
-        let band = 1e-4;
+        // coverage fractions of the planted integer-grid lists are exact in f32 and f64: no band there
+        let band = if style == "exact-grid" { 0.0 } else { 1e-4 };
         let mut in_band = false;
         // kept vs earlier kept
         'outer: for j in 0..out_idx.len() {
@@ -156,8 +187,11 @@ fn main() {
                     rep.violation("C14/kept-but-covered", idx, json!({"case": case_js(), "higher": out_idx[i], "lower": out_idx[j], "cover": c}));
                     break 'outer;
                 }
-                if (c - thr as f64).abs() <= band {
+                if band > 0.0 && (c - thr as f64).abs() <= band {
                     in_band = true;
+                }
+                if band == 0.0 && c == thr as f64 {
+                    rep.count("exact_equality_decisions");
                 }
             }
         }
@@ -175,10 +209,13 @@ fn main() {
                     best = best.max(cover(*k, *d));
                 }
             }
-            if (best - thr as f64).abs() <= band {
+            if band > 0.0 && (best - thr as f64).abs() <= band {
                 in_band = true;
             }
-            if !(best > thr as f64 - band) {
+            if band == 0.0 && best == thr as f64 {
+                rep.count("exact_equality_decisions");
+            }
+            if !(best > thr as f64 - band) || (band == 0.0 && best <= thr as f64) {
                 rep.violation("C14/dropped-but-not-covered", idx, json!({"case": case_js(), "dropped": d, "best_cover_by_kept": best}));
                 break;
             }
